@@ -475,3 +475,188 @@ func batchHelperCalls(p *core.Program, fn *ssa.Function) []helperBind {
 	scan(fn, nil, 0)
 	return out
 }
+
+// ---- forwarders: a function that, as its first unconditional act, calls target with its own parameters is a thin
+// wrapper of target; the obligations of target's call sites then apply to the wrapper's call sites.
+
+type viaSite struct {
+	fn   *ssa.Function
+	call ssa.CallInstruction
+	args []ssa.Value // in target's argument order
+}
+
+func callSitesThroughForwarders(p *core.Program, rel string, target *ssa.Function) []viaSite {
+	type fw struct{ idx []int }
+	forwarders := map[*ssa.Function]fw{}
+	isFw := func(g *ssa.Function) (fw, bool) {
+		if g == target || len(g.Blocks) == 0 {
+			return fw{}, false
+		}
+		for _, in := range g.Blocks[0].Instrs {
+			c := core.CallOf(in)
+			if c == nil || core.StaticCallee(c) != target {
+				continue
+			}
+			var idx []int
+			for _, a := range c.Args {
+				k := -1
+				for i, pa := range g.Params {
+					if a == ssa.Value(pa) {
+						k = i
+					}
+				}
+				if k < 0 {
+					return fw{}, false
+				}
+				idx = append(idx, k)
+			}
+			return fw{idx}, true
+		}
+		return fw{}, false
+	}
+	for _, g := range p.FuncsIn(rel) {
+		if f, ok := isFw(g); ok {
+			forwarders[g] = f
+		}
+	}
+	var out []viaSite
+	for _, fn := range p.FuncsIn(rel) {
+		if _, isF := forwarders[fn]; isF {
+			continue
+		}
+		core.InstrsOf(fn, func(in ssa.Instruction) {
+			ci, ok := in.(ssa.CallInstruction)
+			if !ok {
+				return
+			}
+			g := core.StaticCallee(ci.Common())
+			if g == nil {
+				return
+			}
+			if g == target {
+				out = append(out, viaSite{fn, ci, ci.Common().Args})
+				return
+			}
+			if f, ok := forwarders[g]; ok {
+				var args []ssa.Value
+				for _, k := range f.idx {
+					if k < len(ci.Common().Args) {
+						args = append(args, ci.Common().Args[k])
+					}
+				}
+				out = append(out, viaSite{fn, ci, args})
+			}
+		})
+	}
+	return out
+}
+
+// ---- key templates: how a storage key / prefix is assembled, independent of whether it is written with
+// fmt.Sprintf, with string concatenation or with conversions in between.
+
+type tpart struct {
+	kind string // lit | glob | arg
+	text string // literal text, or the global's name
+	val  ssa.Value
+}
+
+// keyTemplate decomposes v into literal text, package-level prefix variables and other (argument) values.
+func keyTemplate(v ssa.Value, d int) []tpart {
+	if d > 8 {
+		return []tpart{{kind: "arg", val: v}}
+	}
+	v = core.Unwrap(v)
+	switch x := v.(type) {
+	case *ssa.Const:
+		if s, ok := core.ConstString(x); ok {
+			return []tpart{{kind: "lit", text: s}}
+		}
+	case *ssa.Convert:
+		return keyTemplate(x.X, d+1)
+	case *ssa.UnOp:
+		if g, ok := x.X.(*ssa.Global); ok && x.Op == token.MUL {
+			return []tpart{{kind: "glob", text: g.Name()}}
+		}
+	case *ssa.BinOp:
+		if x.Op == token.ADD && isStringType(x.Type()) {
+			return mergeLits(append(keyTemplate(x.X, d+1), keyTemplate(x.Y, d+1)...))
+		}
+	case *ssa.Call:
+		if core.CalleeName(&x.Call) == "fmt.Sprintf" {
+			format, okf := core.ConstString(x.Call.Args[0])
+			args, oka := varargElems(x.Call.Args[1])
+			if okf && oka {
+				var out []tpart
+				ai := 0
+				lit := ""
+				for i := 0; i < len(format); i++ {
+					if format[i] != '%' || i+1 >= len(format) {
+						lit += string(format[i])
+						continue
+					}
+					if format[i+1] == '%' {
+						lit += "%"
+						i++
+						continue
+					}
+					// a verb: flags/width/precision up to the verb letter
+					j := i + 1
+					for j < len(format) && strings.ContainsRune("+-# 0123456789.", rune(format[j])) {
+						j++
+					}
+					if j >= len(format) || ai >= len(args) {
+						return []tpart{{kind: "arg", val: v}}
+					}
+					if lit != "" {
+						out = append(out, tpart{kind: "lit", text: lit})
+						lit = ""
+					}
+					if format[j] == 's' && j == i+1 {
+						out = append(out, keyTemplate(args[ai], d+1)...)
+					} else {
+						out = append(out, tpart{kind: "arg", text: format[i : j+1], val: args[ai]})
+					}
+					ai++
+					i = j
+				}
+				if lit != "" {
+					out = append(out, tpart{kind: "lit", text: lit})
+				}
+				return mergeLits(out)
+			}
+		}
+	}
+	return []tpart{{kind: "arg", val: v}}
+}
+
+func mergeLits(ps []tpart) []tpart {
+	var out []tpart
+	for _, p := range ps {
+		if p.kind == "lit" && len(out) > 0 && out[len(out)-1].kind == "lit" {
+			out[len(out)-1].text += p.text
+			continue
+		}
+		out = append(out, p)
+	}
+	return out
+}
+
+// renderTemplate prints a template with {global} and %s placeholders (formatted arguments keep their verb).
+func renderTemplate(ps []tpart) string {
+	var sb strings.Builder
+	for _, p := range ps {
+		switch p.kind {
+		case "lit":
+			sb.WriteString(p.text)
+		case "glob":
+			sb.WriteString("{" + p.text + "}")
+		default:
+			if p.text != "" {
+				sb.WriteString(p.text)
+			} else {
+				sb.WriteString("%s")
+			}
+		}
+	}
+	return sb.String()
+}
